@@ -245,6 +245,7 @@ Definition add_contract (s : state) (id : cid) (c : contract) : state :=
 Definition create (s : state) (m : create_msg) : option state :=
   if negb (create_basic m) then None
   else if blocked (m_to m) then None
+  else if m_to m =? ESC then None       (* the module's own account cannot be the recipient (msgServer.CreateHTLC) *)
   else
     let id := id_of m in
     if has id (st_contracts s) then None
